@@ -25,7 +25,7 @@ pub fn convert<'gc, 'r>(env: &mut Env<'gc, 'r>, ex: &mut Exec, target: Sel, chai
     ex.cov.convert_ops += 1;
     let mc = env.mc;
     let mut out: Ref<'gc> = r;
-    match chain % 6 {
+    match chain % 8 {
         0 => {
             // erase: same address, ptr_eq on the erased forms
             let e = r.erase().unwrap();
@@ -144,6 +144,83 @@ pub fn convert<'gc, 'r>(env: &mut Env<'gc, 'r>, ex: &mut Exec, target: Sel, chai
                 other => other,
             };
             same(ex, "unsize/erase_kind", id, r, out);
+        }
+        5 => {
+            // cast: to () it is erase; from the erased pointer back to the original type it is the same object
+            out = unsafe {
+                match r {
+                    Ref::D(g) => {
+                        let e: Gc<'gc, ()> = Gc::cast::<()>(g);
+                        if !Gc::ptr_eq(e, Gc::erase(g)) {
+                            ex.violate("C19", "cast-moved", format!("cast::<()>: object {id} is not ptr_eq to its erased form"));
+                        }
+                        Ref::D(Gc::cast::<DNode<'gc>>(e))
+                    }
+                    Ref::R(g) => Ref::R(Gc::cast::<RNode<'gc>>(Gc::erase(g))),
+                    Ref::P(g) => Ref::P(Gc::cast::<PNode<'gc>>(Gc::cast::<()>(g))),
+                    Ref::DB(g) => Ref::DB(Gc::cast::<DynBox<'gc>>(Gc::erase(g))),
+                    other => other,
+                }
+            };
+            same(ex, "cast round trip", id, r, out);
+            // the weak forms
+            let w = r.downgrade().unwrap();
+            let back = unsafe {
+                match w {
+                    WeakRef::D(g) => WeakRef::D(GcWeak::cast::<DNode<'gc>>(GcWeak::cast::<()>(g))),
+                    WeakRef::R(g) => WeakRef::R(GcWeak::from_ptr_with_kind(g.as_ptr())),
+                    WeakRef::P(g) => WeakRef::P(GcWeak::cast::<PNode<'gc>>(GcWeak::erase(g))),
+                    other => other,
+                }
+            };
+            if back.addr() != r.addr() {
+                ex.violate("C19", "weak-conversion-moved", format!("weak cast round trip: object {id} moved"));
+            }
+        }
+        6 => {
+            // thin pointers: the thin reference and the raw thin pointer are the value's address, and the
+            // raw thin round trip reconstructs the length
+            out = unsafe {
+                match r {
+                    Ref::TSl(g) => {
+                        let back = Gc::from_thin_ptr_with_kind(Gc::as_thin_ptr(g));
+                        if Gc::as_thin_ref(g) as *const _ as *const () as usize != r.addr() || Gc::as_thin_ptr(g) as *const () as usize != r.addr() {
+                            ex.violate("C19", "thin-address", format!("as_thin_ref / as_thin_ptr: thin slice {id} is not at its own address"));
+                        }
+                        let back: gc_arena::GcThinSlice<'gc, Slot<'gc>> = back;
+                        if back.len() != g.len() {
+                            ex.violate("C19", "thin-length", format!("from_thin_ptr_with_kind: slice {id} length {} became {}", g.len(), back.len()));
+                        }
+                        Ref::TSl(back)
+                    }
+                    Ref::TSH(g) => {
+                        let back: gc_arena::GcThinSliceWithHeader<'gc, Hdr, Slot<'gc>> = Gc::from_thin_ptr_with_kind(Gc::as_thin_ptr(g));
+                        if Gc::as_thin_ref(g) as *const _ as *const () as usize != r.addr() {
+                            ex.violate("C19", "thin-address", format!("as_thin_ref: thin slice-with-header {id} is not at its own address"));
+                        }
+                        if back.slice.len() != g.slice.len() || back.header.tok.id != g.header.tok.id {
+                            ex.violate("C19", "thin-length", format!("from_thin_ptr_with_kind: slice-with-header {id} changed"));
+                        }
+                        Ref::TSH(back)
+                    }
+                    Ref::TStr(g) => {
+                        let back: gc_arena::GcThinStr<'gc> = Gc::from_thin_ptr_with_kind(Gc::as_thin_ptr(g));
+                        if *back != *g {
+                            ex.violate("C19", "thin-length", format!("from_thin_ptr_with_kind: str {id} changed"));
+                        }
+                        Ref::TStr(back)
+                    }
+                    // fat unsized kinds go to thin first
+                    Ref::Sl(g) => Ref::TSl(Gc::from_thin_ptr_with_kind(Gc::as_thin_ptr(Gc::as_thin(g)))),
+                    Ref::SH(g) => Ref::TSH(Gc::from_thin_ptr_with_kind(Gc::as_thin_ptr(Gc::as_thin(g)))),
+                    Ref::Str(g) => Ref::TStr(Gc::from_thin_ptr_with_kind(Gc::as_thin_ptr(Gc::as_thin(g)))),
+                    other => other,
+                }
+            };
+            same(ex, "raw thin round trip", id, r, out);
+            if out.strong().len() != r.strong().len() {
+                ex.violate("C19", "thin-length", format!("raw thin round trip: object {id} has {} slots, had {}", out.strong().len(), r.strong().len()));
+            }
         }
         _ => {
             // weak unsize + weak raw round trip
